@@ -397,6 +397,61 @@ pub fn limiter_fairness_through_listener() -> Vec<(String, String, serde_json::V
     out
 }
 
+
+/// Admission while the listener is stopping: connections that were accepted before shutdown was requested but send
+/// their PROXY header only afterwards are admitted or refused on exactly the same budget as before - the request to
+/// stop neither refills nor empties anybody's budget. (limit 2, one hour window; X has used its budget up.)
+pub fn admission_while_stopping() -> Vec<(String, String, serde_json::Value)> {
+    let mut out = vec![];
+    for (label, announced, served_want) in [
+        ("exhausted source, fresh source", vec![X, Y], vec![false, true]),
+        ("fresh source three times", vec!["203.0.113.12:3333"; 3], vec![true, true, false]),
+        ("fresh, exhausted, fresh", vec![Y, X, Y], vec![true, false, true]),
+    ] {
+        let r: Vec<(String, String)> = run_local(async {
+            let mut v = vec![];
+            let cfg = ListenerCfg { proxy: Some((true, true)), limiter: Some((3600, 2)), timeout: Duration::from_secs(20), ..Default::default() };
+            let running = start_listener(&cfg, NetAdapters::new()).await;
+            // X uses its budget up (and is refused the third time - or the history says nothing)
+            let mut used = vec![];
+            for _ in 0..3 {
+                used.push(run_connection(running.addr, &k("127.0.0.1", &format!("v1:{X}")), false).await.served);
+            }
+            if used != [true, true, false] {
+                common::machinery(&format!("C15 stopping histories: the budget of {X} was not used up as expected: {used:?}"));
+            }
+            let mut pending = vec![];
+            for _ in &announced {
+                match McClient::connect(running.addr, Some("127.0.0.2".parse().unwrap())).await {
+                    Ok(c) => pending.push(c),
+                    Err(e) => common::machinery(&format!("C15 stopping histories: connect failed: {e}")),
+                }
+            }
+            tokio::time::sleep(Duration::from_millis(100)).await;
+            running.stop.cancel();
+            tokio::time::sleep(Duration::from_millis(300)).await;
+            for (i, (mut c, src)) in pending.into_iter().zip(&announced).enumerate() {
+                let src: SocketAddr = src.parse().unwrap();
+                let _ = c.send_raw(&proxy_v1(src, running.addr)).await;
+                let r = c.status_exchange(Duration::from_secs(2)).await;
+                let served = r.is_ok();
+                if served != served_want[i] || (!served && c.received > 0) {
+                    v.push((
+                        if served { "stopping:refused-address-served".to_string() } else { "stopping:admitted-address-not-served".to_string() },
+                        format!("{label}: connection #{i}, accepted before shutdown was requested, announced {src} afterwards: {} ({} bytes received, {r:?}); on the budget of that address it must be {}", if served { "served" } else { "not served" }, c.received, if served_want[i] { "served" } else { "closed without a byte" }),
+                    ));
+                }
+            }
+            let _ = tokio::time::timeout(Duration::from_secs(3), running.done).await;
+            v
+        });
+        for (key, t) in r {
+            out.push((key, t, json!({"stopping": label})));
+        }
+    }
+    out
+}
+
 fn histories(proxy: &str, depth: usize) -> Vec<Vec<Kind>> {
     let ks = kinds(proxy);
     let mut out: Vec<Vec<Kind>> = vec![];
@@ -418,6 +473,16 @@ fn histories(proxy: &str, depth: usize) -> Vec<Vec<Kind>> {
 
 pub fn run(cli: Cli) -> ! {
     let rep = Report::new("C15", cli.tier, "model_checking");
+    if let Some(case) = cli.replay.clone().filter(|c| c.get("stopping").is_some()) {
+        for (key, t, _) in admission_while_stopping() {
+            println!("{key}: {t}");
+            rep.violation(Violation { key, text: t, replay: case.clone(), weight: 0 });
+        }
+        rep.set("states", json!(1));
+        rep.set("transitions", json!(1));
+        rep.set("traces_validated_against_impl", json!(1));
+        rep.finish();
+    }
     if let Some(case) = cli.replay.clone() {
         let spec: Spec = serde_json::from_value(case["spec"].clone()).unwrap_or_else(|e| common::machinery(&format!("bad replay: {e}")));
         println!("spec: {}", serde_json::to_string_pretty(&spec).unwrap());
@@ -538,6 +603,11 @@ pub fn run(cli: Cli) -> ! {
             rep.violation(Violation { key, text: format!("{t}; history {}", serde_json::to_string(s).unwrap()), replay: json!({"spec": s}), weight: s.history.len() as u64 * 1000 + i as u64 % 1000 });
         }
     });
+    let stopping = admission_while_stopping();
+    rep.set("histories_with_headers_sent_after_shutdown_was_requested", json!(3));
+    for (key, t, replay) in stopping {
+        rep.violation(Violation { key, text: t, replay, weight: 50 });
+    }
     let d = distinct.lock().unwrap().len() as u64;
     rep.require("histories", specs.len() as u64, 100);
     rep.set("states", json!(conns.load(Ordering::Relaxed)));
